@@ -146,6 +146,10 @@ func init() {
 			return BoolV{ex.fresh(ex.argStr(args[0], "label"), 0)}
 		},
 		"Symbolic": func(ex *Exec, fn *ssa.Function, args []Value) Value { return BoolV{ex.tf.True} },
+		"ConcreteBuffers": func(ex *Exec, fn *ssa.Function, args []Value) Value {
+			ex.concreteCopies = true
+			return nil
+		},
 		"NativeUnsupported": func(ex *Exec, fn *ssa.Function, args []Value) Value { return nil },
 		"Bytes": func(ex *Exec, fn *ssa.Function, args []Value) Value {
 			label := ex.argStr(args[0], "label")
@@ -264,6 +268,7 @@ func init() {
 				return IntV{ex.tf.Const(64, pv%n.val)}
 			}
 			if pv, ok := ex.eng.pinChoices[fmt.Sprintf("%s#%d", label, seq)]; ok {
+				ex.choiceVals[fmt.Sprintf("%s#%d", label, seq)] = pv % n.val
 				return IntV{ex.tf.Const(64, pv%n.val)}
 			}
 			c := ex.choice(int(n.val))
@@ -374,6 +379,16 @@ func init() {
 		"internal/bytealg.IndexByte":       intrIndexByte,
 		"internal/bytealg.IndexByteString": intrIndexByte,
 		"strings.IndexByte":                intrIndexByte,
+		"(*crypto/rand.reader).Read": func(ex *Exec, fn *ssa.Function, args []Value) Value {
+			// arbitrary bytes
+			p := args[1].(SliceV)
+			if p.Arr != nil {
+				ex.timeSeq++
+				ex.bytesArrIn(p.Arr.(*BytesNode), p.Off, p.Len, fmt.Sprintf("randbytes#%d", ex.timeSeq), ex.tf.Const(64, 0))
+			}
+			return TupleV{IntV{p.Len}, IfaceV{}}
+		},
+		"ConcreteBuffersPlaceholder":   zeroResult,
 		"internal/bytealg.CountString": intrCountByte,
 		"internal/bytealg.Count":       intrCountByte,
 		"strings.ToLower":              intrCaseMap(false),
